@@ -18,6 +18,18 @@ TECH = ("runtime monitoring: generated hostile workload against the real library
 
 # id -> (design section, level text, level note, technique suffix)
 CHECKS = {
+ "C02": ("DESIGN.md §5 C02",
+         "Held on every explored rendering: abstract documents are spelled out by a renderer that draws every lexical choice (references, CDATA splitting, line ends, quotes, in-tag white space, prefix choice, xmlns interleaving, XML declaration, BOM, xml:id padding, byte encodings) and is its own oracle; the parsed tree must equal the abstract document (declarations and attributes in written order), xml_id_node must find each id, parse_fragment must equal the wrapped parse; all spellings of a reduced choice set are enumerated for small documents; exploration, not proof.",
+         "Trusts the renderer's construction; comment/PI bodies use LF only; no BOM-less UTF-16.",
+         "generator with built-in expected answer (renderer) vs parse result"),
+ "C03": ("DESIGN.md §5 C03",
+         "Held on every explored input: arbitrary bytes/strings, 32 kinds of by-construction ill-formed damage to valid renderings, byte/char mutations and four stress sizes through all five parse entry points under catch_unwind and a 20 s watchdog; ill-formed inputs must be rejected, accepted inputs must pass the structural walker, validate_well_formed_document, serialise and reparse equal; thorough adds Miri and ASan legs; exploration, not proof.",
+         "Only the ill-formedness classes listed in the statement are required to be rejected; 'hang' is bounded progress (20 s).",
+         "totality monitor (catch_unwind + watchdog) + by-construction negative oracle + loop closure"),
+ "C17": ("DESIGN.md §5 C17",
+         "Held on every explored rendering: every span recorded by the renderer while writing (names, attribute names/values, text runs across CDATA parts, comments, PI targets/contents, end tags) must be reported with exactly those byte offsets on character boundaries and every node must have its spans; every ParseError from >=10^5 rejected inputs must report a span inside the source; exploration, not proof.",
+         "Trusts the renderer's offset bookkeeping.",
+         "offset-tracking generator vs SpanInfo / ParseError::span"),
  "C04": ("DESIGN.md §5 C04, Appendix A",
          "Held on every explored history: invariant walker (link consistency, acyclicity, category order, uniqueness, placement, text adjacency) over all live arena slots and a shadow handle table after every call of >=6*10^4 (quick) random histories with arbitrary live arguments, plus every (operation, node, node) triple on ~2500 small start states, plus a 40 000-cycle slot-churn history; exploration, not proof.",
          "Live-slot enumeration through the read-only hook; forests <= ~60 nodes, histories <= 40 calls; one open finding (indextree stamp saturation) suppressed by exact signature.",
